@@ -105,7 +105,13 @@ def explore_state(ck, state, tier, stats):
             if key not in dls or len(j["sched"]) < len(dls[key]["sched"]):
                 dls[key] = j
     stats["model_deadlock_combos"] += len(dls)
+    confirmed_here, cap = 0, (6 if tier == "quick" else 40)
     for key, j in sorted(dls.items()):
+        if confirmed_here >= cap:
+            # the verdict is settled; confirming a deadlock costs seconds (the detector has to see the cycle), so the rest
+            # of the model's deadlocks for this start state are only counted
+            stats["model_deadlocks_not_replayed"] = stats.get("model_deadlocks_not_replayed", 0) + 1
+            continue
         names = [ops[i - 1]["name"] for i in key]
         specs = [ops[i - 1]["spec"] for i in key]
         sched = [(e[0], e[1]) for e in j["sched"]] + [(t, True) for t in sorted(j["blocked"])]
@@ -119,6 +125,7 @@ def explore_state(ck, state, tier, stats):
                 "lock_sites": {str(l): sites.get(l, "?") for l in locks}, "replay_outcome": res.get("outcome"), "frames": res.get("frames", [])}
         if res.get("outcome") == "deadlock":
             stats["confirmed"] += 1
+            confirmed_here += 1
             fk = "C08-deadlock-" + "+".join(sorted(set(frame_key(res.get("frames", [])))))
             ck.violation(desc, "deadlock confirmed on the real locks: %s || %s (state %s): %s" % (names[0], " || ".join(names[1:]), state, "; ".join(res.get("frames", []))[:400]),
                          finding_key=fk)
